@@ -839,6 +839,10 @@ func (c *Ctx) ruleMatcherShape() {
 			}
 		}
 		sort.Slice(contractFns, func(i, j int) bool { return FuncName(contractFns[i]) < FuncName(contractFns[j]) })
+		if len(ci.Params) < 3 {
+			c.fail("MATCHER/CONTRACT", "implements.checkImplementation", P.Pos(ci.Pos()), "checkImplementation is not handed the pointer/value flag of the annotation being checked: the contract cannot depend on `&`")
+			return
+		}
 		flagD := P.Desc(ci.Params[2])
 		isFlag := func(v ssa.Value) bool { return v == ssa.Value(ci.Params[2]) || (v != nil && P.Desc(v) == flagD) }
 		P.PinnedAll(cpins, func() {
